@@ -32,7 +32,7 @@ T = 'chainables.tree'
 
 
 def run(ctx: Ctx):
-  for r in (r1, r2, r3, r4, r5, r6, r7):
+  for r in (r1, r2, r3, r4, r5, r6, r7, r8):
     ctx.guard(r)
 
 
@@ -431,10 +431,58 @@ def r7(ctx: Ctx):
   ctx.floor(rule, 1, n)
 
 
+def r8(ctx: Ctx):
+  rule = 'R-C18-8'
+  ctx.rule(rule, '"reading a path after a copying set returns the set value" for fresh paths:'
+           ' when a branch does not exist yet, _default_tree decides the container kind from'
+           ' the KEY KIND — a sequence only for an `Index(...)` key (class pattern / isinstance'
+           ' on Index), a mapping for every other key. A pattern that also matches plain ints'
+           ' (`int(key)`) turns {\'ids\': {3: v}} into a failed insert and {0: v} into [v]:'
+           ' the path no longer reads back')
+  fi = ctx.repo.func(T, '_default_tree')
+  n = 0
+  ok_any = False
+  for m_ in walk_no_nested(fi.node):
+    if not isinstance(m_, ast.Match):
+      continue
+    for case in m_.cases:
+      builds_list = any(isinstance(y, ast.Return) and isinstance(y.value, ast.List) for b in case.body for y in ast.walk(b))
+      if not builds_list:
+        continue
+      n += 1
+      classes = [unparse(p_.cls).split('.')[-1] for p_ in ast.walk(case.pattern) if isinstance(p_, ast.MatchClass)]
+      guard_idx = case.guard is not None and 'Index' in unparse(case.guard) and 'isinstance' in unparse(case.guard)
+      if (classes and all(c_ == 'Index' for c_ in classes)) or (not classes and guard_idx):
+        ok_any = True
+        ctx.ok(rule, fi, '_default_tree: a fresh sequence only for an Index key', case.pattern)
+      else:
+        ctx.fail(rule, fi, '_default_tree: a fresh sequence is created only for an Index key',
+                 f'the case `{unparse(case.pattern)[:50]}` that builds a list matches {classes or "any key"}, not only'
+                 ' Index: a plain int (or bool) key of a fresh branch is taken for a list position — non-zero'
+                 ' keys fail to insert and key 0 builds [v] instead of {0: v}, so the set path does not read back',
+                 node=case.pattern)
+  if n == 0:
+    # if/elif form
+    for x in walk_no_nested(fi.node):
+      if isinstance(x, ast.If) and any(isinstance(y, ast.Return) and isinstance(y.value, ast.List) for b in x.body for y in ast.walk(b)):
+        n += 1
+        t = unparse(x.test)
+        if 'isinstance' in t and 'Index' in t and 'int' not in t.replace('Index', ''):
+          ctx.ok(rule, fi, '_default_tree: a fresh sequence only for an Index key', x.test)
+        else:
+          ctx.fail(rule, fi, '_default_tree: a fresh sequence is created only for an Index key',
+                   f'the branch `{t[:50]}` that builds a list is not restricted to Index keys', node=x.test)
+  ctx.floor(rule, 1, n)
+
+
 from mlmverif.selfcheck import B, OK  # noqa: E402
 
 _F = 'chainables/tree.py'
 VARIANTS = [
+    B('fresh-branch-int-key-as-position', 'chainables/tree.py',
+      '    case (Index(key), *rest_keys):', '    case (int(key), *rest_keys):', 'R-C18-8'),
+    OK('fresh-branch-index-by-guard', 'chainables/tree.py',
+       '    case (Index(key), *rest_keys):', '    case (key, *rest_keys) if isinstance(key, Index):'),
     B('literal-value-through-leaf-fn', _F,
       '      if isinstance(k, Literal):\n        return k.value',
       '      if isinstance(k, Literal):\n        data = k.value\n        break', 'R-C18-7'),
